@@ -405,7 +405,13 @@ def run(ctx):
     ip = Stream("server-main-in-process")
     for i in range(400 if ctx.thorough else 60):
         inprocess_run(r, r.choice(["astm", "lis2a", "json", "json", None]), ip, burst=(i % 3 == 0), timeouts=(i % 4 == 1))
-    return [s, ip]
+    # many instruments finishing in the same turn of the event loop
+    for i in range(4 if ctx.thorough else 1):
+        inprocess_run(r, r.choice(["astm", "json"]), ip, burst=True, n_clients=r.choice([90, 130]))
+    # outside the stated domain (O1), model against code only: sessions of line-oriented senders whose frames end
+    # with CR only / LF only / nothing behind the checksum
+    from harness.props import C03
+    return [s, ip, C03.exploratory_stream(ctx, ctx.rng("C14.O1"))]
 
 
 def search(ctx, disagreements):
